@@ -185,6 +185,11 @@ fn candidates(w: &World, p: &Plan) -> Vec<(World, Plan)> {
         out.push((c, p.clone()));
     }
     for i in 0..w.files.len() {
+        if w.files[i].md_ref {
+            let mut c = w.clone();
+            c.files[i].md_ref = false;
+            out.push((c, p.clone()));
+        }
         if w.files[i].md_nest > 0 {
             let mut c = w.clone();
             c.files[i].md_nest = 0;
